@@ -10,7 +10,7 @@ from . import c12
 
 ID = "C19"
 TECHNIQUE = "record/helper-file pairing across the sibling text_merge implementations (K7), def-use of the conflict sentinel (K5), guard of the recording branch (K2), helper-suffix table agreement (K6) (ast)"
-FLOOR = 16
+FLOOR = 29
 MG = "breezy/merge.py"
 CF = "breezy/bzr/conflicts.py"
 EXPLANATION = """
